@@ -187,6 +187,16 @@ class World(BaseWorld):
                 pairs = list(zip(labs, idx))
                 rng.shuffle(pairs)
                 md["set_mapping"] = {"how": rng.choice(["set_mapping", "set_reverse_mapping"]), "pairs": [[enc_label(l), i] for l, i in pairs]}
+            if edits and edits[-1][0] == "R" and rng.random() < 0.5:
+                # ... or pins it on the refreshed model, over the labels that survived
+                left = sorted({l for k, v in self.model_info("puso", md)[0].t.items() for l in k}, key=sort_key)
+                if len(left) >= 2:
+                    idx = list(range(len(left)))
+                    rng.shuffle(idx)
+                    md["set_mapping"] = {"how": rng.choice(["set_mapping", "set_reverse_mapping"]), "when": "end",
+                                         "pairs": [[enc_label(l), i] for l, i in zip(left, idx)]}
+                else:
+                    md.pop("set_mapping", None)
         return md
 
     def model_info(self, fn, m):
@@ -276,7 +286,7 @@ class World(BaseWorld):
         if fn is None:
             fn = rng.choice(c["fns"])
             m = self.gen_model(rng, fn)
-            if m["type"] != "dict" and rng.random() < c.get("p_live", 0.15):
+            if m["type"] != "dict" and rng.random() < c.get("p_live", 0.15) and (m.get("set_mapping") or {}).get("when") != "end":
                 m["keep"] = True
         poly, reported = self.model_info(fn, m)
         op = {"op": "anneal", "fn": fn, "model": m}
@@ -428,6 +438,8 @@ class World(BaseWorld):
             d[dec_key(k)] = v
         obj = T(d) if m["type"] != "dict" else d
         sm = m.get("set_mapping")
+        if sm and sm.get("when") == "end":
+            sm = None
         if sm:
             # the user pins the mapping on the freshly built model; later edits (and refresh(), which rebuilds the
             # bookkeeping) happen to that object, exactly as they do for a model kept alive between calls
@@ -443,6 +455,15 @@ class World(BaseWorld):
                 self.fault("model_refreshed_after_cancellation")
                 continue
             obj[dec_key(k)] += delta
+        sm = m.get("set_mapping")
+        if sm and sm.get("when") == "end":
+            pairs = [(dec_label(l), i) for l, i in sm["pairs"]]
+            if sm["how"] == "set_mapping":
+                obj.set_mapping(dict(pairs))
+            else:
+                obj.set_reverse_mapping({i: l for l, i in pairs})
+            self.fault("user_defined_mapping")
+            self.probe("mapping_pinned_on_refreshed_model")
         return obj
 
     def snapshot(self, obj):
@@ -1012,6 +1033,13 @@ def shrink_op(op):
             if m.get("set_mapping"):
                 # keep the pinned mapping a bijection from the remaining labels onto 0..n-1 (anything else is a user error)
                 left = {json.dumps(l, sort_keys=True) for k, _ in t for l in k}
+                if m["set_mapping"].get("when") == "end":
+                    # pinned on the refreshed model: only labels of terms with a non-zero net coefficient are left
+                    net = {}
+                    for k, v in t + [e for e in m2["edits"] if e[0] != "R"]:
+                        kk = json.dumps(sorted(json.dumps(l, sort_keys=True) for l in k))
+                        net[kk] = net.get(kk, 0) + v
+                    left = {l for kk, v in net.items() if v for l in json.loads(kk)}
                 pairs = sorted([p for p in m["set_mapping"]["pairs"] if json.dumps(p[0], sort_keys=True) in left], key=lambda p: p[1])
                 if len(pairs) >= 1:
                     m2["set_mapping"] = dict(m["set_mapping"], pairs=[[p[0], i] for i, p in enumerate(pairs)])
@@ -1019,7 +1047,8 @@ def shrink_op(op):
                     m2.pop("set_mapping")
             out.append(dict(op, model=m2))
     if m["edits"]:
-        out.append(dict(op, model=dict(m, edits=m["edits"][:-1])))
+        out.append(dict(op, model={k: v for k, v in dict(m, edits=m["edits"][:-1]).items()
+                                   if not (k == "set_mapping" and (v or {}).get("when") == "end")}))
     if m.get("set_mapping"):
         out.append(dict(op, model={k: v for k, v in m.items() if k != "set_mapping"}))
     if op.get("num_anneals", 1) > 1:
